@@ -74,12 +74,12 @@ def r2(ctx, eff):
     # no other removal of files in the import call graph, except temp files named by tempfile
     cd = require_func(ctx, "create.create_db")
     for e in eff.transitive(cd.qual):
-        if e[1] == "FS" and e[2] == "unlink" and e[0] != init.qual:
+        if e[1] == "FS" and e[2] in ("unlink", "move") and e[0] != init.qual:
             call = e[4]
             tgt = norm(call.args[0]) if call.args else "?"
-            ok = tgt in ("fout.name", "tmp", "tmp.name", "self._tmpfile")
-            ctx.ob("R2", ok, "apart from the force block, an import removes nothing but its own temp files", node=call, func=ctx.proj.funcs[e[0]],
-                   sig="%s unlinks %s" % (e[0].split(".")[-1], tgt), nontrivial=False)
+            ok = "dbfn" not in tgt
+            ctx.ob("R2", ok, "apart from the force block, nothing in an import removes or moves the database file (temp-file removal is C20's)",
+                   node=call, func=ctx.proj.funcs[e[0]], sig="%s removes %s" % (e[0].split(".")[-1], tgt), nontrivial=False)
 
 
 def r3(ctx, eff):
